@@ -2,9 +2,9 @@
 package c16
 
 import (
-	"math/big"
 	"encoding/hex"
 	"fmt"
+	"math/big"
 	"reflect"
 	"sort"
 	"strings"
@@ -149,6 +149,11 @@ func run(thorough bool) func(shard, shards int, deadline time.Time) *explore.Res
 			"addr-32-bytes": sdk.AccAddress(append(append([]byte{}, govAcc...), make([]byte, 12)...)).String(),
 			"gov-prefix":    gov[:len(gov)-1],
 			"gov-uppercase": strings.ToUpper(gov),
+			// other accounts whose bytes merely contain the governance address
+			"32-bytes-ending-in-gov":       sdk.AccAddress(append(make([]byte, 12), govAcc...)).String(),
+			"32-bytes-ending-in-gov/other": sdk.MustBech32ifyAddressBytes("cosmos", append([]byte{1, 2, 3, 4, 5, 6, 7, 8, 9, 10, 11, 12}, govAcc...)),
+			"gov-bytes-other-prefix":       sdk.MustBech32ifyAddressBytes("cosmos", govAcc),
+			"gov-with-spaces":              " " + gov + " ",
 		}
 		for _, mod := range []string{"erc20", "evm", "eth", "bsc", "distribution", "bonded_tokens_pool", "fee_collector", "mint", "transfer", "crosschain"} {
 			wrong["module:"+mod] = authtypes.NewModuleAddress(mod).String()
@@ -179,6 +184,7 @@ func run(thorough bool) func(shard, shards int, deadline time.Time) *explore.Res
 				res.Outcomes[fmt.Sprintf("gov-authority/accepted=%v", accepted)]++
 				if accepted {
 					res.Counters["payloads-accepted-with-gov-authority"]++
+					res.Counters["accepted-with-gov-authority/"+v.name]++
 					if w.Digest(cctx) == w.Digest(ctx) {
 						res.Counters["accepted-payload-without-state-change"]++
 					}
@@ -186,31 +192,45 @@ func run(thorough bool) func(shard, shards int, deadline time.Time) *explore.Res
 					viol("C16/harness/control-payload-rejected/"+v.name, "harness", fmt.Sprintf("%s with the governance authority: %s", v.name, cr), v.name)
 				}
 				for _, k := range wn {
-					bctx := world.Branch(ctx)
-					pre := w.Digest(bctx)
-					r := w.Deliver(bctx, setAuthority(v.msg, wrong[k]))
-					res.Transitions++
-					res.Extra["evaluations"]++
-					name := fmt.Sprintf("%s %s authority=%s", u, v.name, k)
-					if k == "gov-uppercase" {
-						// the same account in another spelling: accepted or rejected, both are fine, but then like the governance account
-						res.Outcomes[fmt.Sprintf("gov-uppercase/accepted=%v", r.OK())]++
-						if !r.OK() && w.Digest(bctx) != pre {
-							viol("C16/rejected-privileged-message-changed-state/"+u, "rejection-changes-nothing", name, name)
+					for _, direct := range []bool{false, true} {
+						if direct && (!accepted || k == "gov-uppercase") {
+							continue // handler-level pass: only payloads the handler is known to apply
 						}
-						continue
-					}
-					res.Outcomes[fmt.Sprintf("wrong-authority/accepted=%v", r.OK())]++
-					if r.Panic != nil && !r.OK() {
-						res.Outcomes["wrong-authority/panic-before-any-effect"]++ // hostile payloads are C20's subject; nothing was written
-						continue
-					}
-					if r.OK() {
-						viol("C16/privileged-message-accepted-from-non-governance-authority/"+u, "only-governance-authority", fmt.Sprintf("%s -> %s", name, r), name)
-						continue
-					}
-					if w.Digest(bctx) != pre {
-						viol("C16/rejected-privileged-message-changed-state/"+u, "rejection-changes-nothing", name+": "+strings.Join(world.DiffDumps(w.Dump(ctx), w.Dump(bctx)), "; "), name)
+						bctx := world.Branch(ctx)
+						pre := w.Digest(bctx)
+						var r world.MsgResult
+						if direct {
+							// straight to the handler, as an executed proposal message or another module would reach it
+							r = w.DeliverToHandler(bctx, setAuthority(v.msg, wrong[k]))
+						} else {
+							r = w.Deliver(bctx, setAuthority(v.msg, wrong[k]))
+						}
+						res.Transitions++
+						res.Extra["evaluations"]++
+						name := fmt.Sprintf("%s %s authority=%s", u, v.name, k)
+						if direct {
+							name += " (handler called without stateless validation)"
+						}
+						if k == "gov-uppercase" {
+							// the same account in another spelling: accepted or rejected, both are fine, but then like the governance account
+							res.Outcomes[fmt.Sprintf("gov-uppercase/accepted=%v", r.OK())]++
+							if !r.OK() && w.Digest(bctx) != pre {
+								viol("C16/rejected-privileged-message-changed-state/"+u, "rejection-changes-nothing", name, name)
+							}
+							continue
+						}
+						res.Outcomes[fmt.Sprintf("wrong-authority/accepted=%v", r.OK())]++
+						if r.Panic != nil && !r.OK() {
+							res.Outcomes["wrong-authority/panic-before-any-effect"]++ // hostile payloads are C20's subject; nothing was written
+							continue
+						}
+						if r.OK() {
+							viol("C16/privileged-message-accepted-from-non-governance-authority/"+u, "only-governance-authority", fmt.Sprintf("%s -> %s", name, r), name)
+							continue
+						}
+						if w.Digest(bctx) != pre {
+							viol("C16/rejected-privileged-message-changed-state/"+u, "rejection-changes-nothing", name+": "+strings.Join(world.DiffDumps(w.Dump(ctx), w.Dump(bctx)), "; "), name)
+						}
 					}
 				}
 				if len(res.Samples) < 5 && accepted {
@@ -313,9 +333,9 @@ func run(thorough bool) func(shard, shards int, deadline time.Time) *explore.Res
 
 func init() {
 	registry.Register(&registry.Check{
-		ID:    "C16",
-		Level: "exploration",
-		Rule:  "every message type registered on the interface registry that has an Authority field and a handler on the message router (found by reflection; crosschain messages for all 8 chain names) x hand-built payloads that are checked to be accepted with the governance authority (generic zero payload for types without one) x 16 non-governance authorities (user, empty, 10 module accounts, governance address as hex, 32-byte address, truncated, upper-case spelling); oracle: error and the whole-store digest unchanged. Raw store update: all stored/old-value combinations. distinct_nontrivial = payloads whose governance-authority control was accepted",
+		ID:          "C16",
+		Level:       "exploration",
+		Rule:        "every message type registered on the interface registry that has an Authority field and a handler on the message router (found by reflection; crosschain messages for all 8 chain names) x hand-built payloads that are checked to be accepted with the governance authority (generic zero payload for types without one) x 16 non-governance authorities (user, empty, 10 module accounts, governance address as hex, 32-byte address, truncated, upper-case spelling); oracle: error and the whole-store digest unchanged. Raw store update: all stored/old-value combinations. distinct_nontrivial = payloads whose governance-authority control was accepted",
 		Assumptions: []string{"message types that only have the generic zero payload may be rejected by validation before the authority check is reached (counted in types-with-generic-payload-only)", "the upper-case bech32 spelling is the governance account (DESIGN 6b)"},
 		Jobs: func(tier string) []registry.Job {
 			return []registry.Job{{Name: "router-x-authorities", Custom: run(tier == "thorough"), Shards: 1}}
